@@ -501,8 +501,23 @@ def switch_on(body, local, tracer_depth=6):
         if not t or t["t"] != "switch" or bi not in body.reachable:
             continue
         if _discr_of(body, t["discr"], local, tracer_depth):
-            res.append((bi, {v: tb for v, tb in t["arms"]}, t["otherwise"]))
+            arms = {v: tb for v, tb in t["arms"]}
+            # two-valued discriminants (bool, Option, Result, ControlFlow, Poll): rustc spells the same match as
+            # `[0 => A, 1 => B] else unreachable`, `[0 => A] else B` or `[1 => B] else A` depending on the source form
+            # (match / if let / let-else). Normalise to both arms being present so rules do not depend on the spelling.
+            if len(arms) == 1 and _two_valued(body, local):
+                only = next(iter(arms))
+                other = {"0": "1", "1": "0"}.get(only)
+                ob = t["otherwise"]
+                if other is not None and ob is not None and (body.blocks[ob]["term"] or {}).get("t") != "unreachable":
+                    arms[other] = ob
+            res.append((bi, arms, t["otherwise"]))
     return res
+
+
+def _two_valued(body, local):
+    ty = body.locals[local]["ty"].lstrip("&").replace("mut ", "")
+    return ty == "bool" or ty.startswith(("std::option::Option<", "std::result::Result<", "std::ops::ControlFlow<", "std::task::Poll<"))
 
 
 def _local_copies_back(body, l, depth=6):
